@@ -50,6 +50,10 @@ fn main() {
                         g.scripted_sweep();
                         g.snapshot(&mut wobs);
                     }
+                    if args[1] == "world" && h % 8 == 3 {
+                        g.scripted_forced_duplicates();
+                        g.snapshot(&mut wobs);
+                    }
                     let k = len / 2 + g.r.below(len / 2 + 1);
                     for i in 0..k {
                         if extreme && i % 7 == 3 {
